@@ -198,7 +198,7 @@ func accessField(structVal reflect.Value, fieldIdx int, opts *options) (fieldInf
 	}
 
 	// create new context, overwriting configValueHandling for all sub-operations
-	if tagOpts.cfgHandling != opts.configValueHandling {
+	if tagOpts.cfgHandling != cfgDefaultHandling && tagOpts.cfgHandling != opts.configValueHandling {
 		tmp := &options{}
 		*tmp = *opts
 		tmp.configValueHandling = tagOpts.cfgHandling
